@@ -1235,6 +1235,24 @@ def impl_decode(c, t, buf, cur, rdlen, origin):
 
 
 def eval_case(ctx: Ctx, case: dict):
+    """evaluate one case; an exception escaping from ==, hash, to_wire or from_wire while the oracle runs is itself a
+    failure of the property (these operations are total on records the library produced)"""
+    try:
+        _eval_case(ctx, case)
+    except Exception as e:  # noqa: BLE001
+        import traceback
+
+        tb = traceback.extract_tb(e.__traceback__)
+        inside = [f for f in tb if "/dns/" in f.filename]
+        if not inside:
+            raise  # a defect of the harness, not of the implementation
+        where = f"{os.path.basename(inside[-1].filename)}:{inside[-1].name}"
+        ctx.fail(f"C02/oracle/raises:{type(e).__name__}/{case['cls']}-{case['typ']}",
+                 f"{type(e).__name__} from {where} while comparing / hashing / re-encoding a record of {case['cls']}/{case['typ']}",
+                 {"kind": case["kind"], "case": case})
+
+
+def _eval_case(ctx: Ctx, case: dict):
     k = case["kind"]
     c, t = case["cls"], case["typ"]
     rep = {"kind": k, "case": case}
